@@ -1,4 +1,5 @@
 import JmesVerif.Model.Cli
+import JmesVerif.Generated.CliArgs
 /-!
 # C18 — the jp command-line tool reports exactly what the library computes
 
@@ -100,6 +101,28 @@ theorem C18_ast_reads_no_input (fuel : Nat) (a : Args) (stdin stdin' : ReadRes) 
     | error e => simp [die]
     | ok p => obtain ⟨e, tree⟩ := p; simp [hast]
 
+
+/-! ### the command-line surface, re-extracted from `jmespath-cli/src/main.rs` on every run
+
+The clap argument table, the exit codes of `die!` and of the `--ast` branch and the order of the stages of
+`main` are the ones the model (`Model/Cli.lean`: `Args`, `die`, `run`) assumes: `-f`, `--filename` and
+`-e`, `--expr-file` take a value, `-u`, `--unquoted` and `--ast` are flags, exactly one of EXPRESSION (first positional) and
+`--expr-file` is required and they exclude each other; `die!` writes to stderr and exits with the model's failure
+code; the `--ast` test comes after compiling and before anything reads the input. -/
+theorem C18_cli_surface :
+    Generated.cliArgs =
+      [⟨"filename", some "f", some "filename", true, false, false, none, []⟩,
+       ⟨"unquoted", some "u", some "unquoted", false, false, false, none, []⟩,
+       ⟨"ast", none, some "ast", false, false, false, none, []⟩,
+       ⟨"expr-file", some "e", some "expr-file", true, false, true, none, ["expression"]⟩,
+       ⟨"expression", none, none, false, false, true, some 1, ["expr-file"]⟩]
+    ∧ Generated.dieExit = Cli.die.exit ∧ Generated.dieExit = Cli.dieAfterInput.exit ∧ Generated.dieExit ≠ 0
+    ∧ Generated.dieWritesStderr = Cli.die.stderrNonEmpty
+    ∧ Generated.astExit = 0
+    ∧ Generated.mainOrder = ["compile", "ast", "input", "search", "show"]
+    ∧ Generated.readsBeforeInput = [] := by
+  refine ⟨by decide, rfl, rfl, by decide, rfl, rfl, by decide, rfl⟩
+
 end JmesVerif
 
 #print axioms JmesVerif.C18_success
@@ -107,3 +130,4 @@ end JmesVerif
 #print axioms JmesVerif.C18_exit0_only_if
 #print axioms JmesVerif.C18_unquoted
 #print axioms JmesVerif.C18_ast_reads_no_input
+#print axioms JmesVerif.C18_cli_surface
